@@ -11,7 +11,7 @@ import pcverif as V
 PROPS = {
     "C01": dict(families="gating,gating,unsat,health,manual,shutdown,restart,exiton,gating,unsat,unsat",
                 need=["launchWithDeps"], model=["PCLifecycle_gating.cfg"], model_thorough=["PCLifecycle_gating.cfg", "PCLifecycle_gating3.cfg"]),
-    "C02": dict(families="restart,restart,restart,restart,health,manual,gating,restart",
+    "C02": dict(families="restart,restart,restart,shutdown,health,manual,gating,restart,shutdown",
                 need=["relaunch", "backoff"], model=["PCLifecycle_restart.cfg"], model_thorough=["PCLifecycle_restart.cfg", "PCLifecycle_health.cfg"]),
     "C03": dict(families="shutdown,shutdown,shutdown,shutdown,restart,exiton,gating,manual",
                 need=["shutdownReturn"], model=["PCLifecycle_shutdown2.cfg"], model_thorough=["PCLifecycle_shutdown2.cfg", "PCLifecycle_shutdown.cfg"]),
